@@ -139,7 +139,7 @@ def gen_stream(rng, native):
     rows, tables, kinds = [], [], []
     if rng.random() < 0.6:
         for _ in range(rng.randint(1, 3)):
-            rows.append([rng.choice(["author:", "date:", "note :", "k:"]), rng.choice(["x", "é µ", "", " padded "])] +
+            rows.append([rng.choice(["author:", "date:", "note :", "k:"]), rng.choice(["x", "é µ", "", " padded ", "long " + "v" * 100])] +
                         ([rng.choice(["more", ""])] if rng.random() < 0.3 else []))
         kinds.append("metadata")
         if rng.random() < 0.3:
@@ -153,7 +153,7 @@ def gen_stream(rng, native):
         elif r < 0.7:
             rows.extend([[], []])
         el = rng.choice(["table", "table", "table", "directive", "template", "comment", "late_key", "blank_payload",
-                         "empty_table"])
+                         "empty_table"] if rng.random() < 0.93 else ["wide_table"])
         if el == "comment" and r >= 0.7 and rows:
             rows.append([])          # a plain row without separator would belong to the block before it
         kinds.append(el)
@@ -173,6 +173,29 @@ def gen_stream(rng, native):
                 kinds.append("col:" + k)
             kinds.append("transposed" if info["transposed"] else "rowwise")
             kinds.append("rows:" + str(info["n_row"]))
+        elif el == "wide_table":
+            # larger rungs: 25 / 40 columns, a text cell of 300 / 2000 characters, 6 / 9 destinations, a long name
+            n_c = rng.choice([25, 40])
+            nm = rng.choice(["wide", "w" * 40, "n" * 100])
+            kinds_w = [rng.choice(["text", "num", "onoff"]) for _ in range(n_c)]
+            units_w = [{"text": "text", "num": rng.choice(["m", "kg", "-"]), "onoff": "onoff"}[k] for k in kinds_w]
+            cnames = ["c%d" % j if j % 7 else "c%d" % j + "x" * rng.choice([0, 40, 100]) for j in range(n_c)]
+
+            def wcell(k):
+                if k == "text":
+                    return rng.choice(["a", "é", "t" * rng.choice([300, 2000])])
+                if k == "num":
+                    return rng.choice(["1.5", "-", "nan", "7"]) if not native else rng.choice([1.5, None, 7])
+                return rng.choice(["0", "1"]) if not native else rng.choice([True, False])
+            body = [[wcell(k) for k in kinds_w] for _ in range(rng.choice([1, 3]))]
+            for r_ in body:
+                if starts_block(r_[0]):
+                    r_[0] = "a" if kinds_w[0] == "text" else ("1" if not native else 1)
+            dest = " ".join("d%d" % j for j in range(rng.choice([6, 9])))
+            grid = [["**" + nm], [dest], cnames, units_w] + body
+            tables.append((len(rows), len(grid), nm, list(units_w)))
+            rows.extend(grid)
+            kinds += ["col:text", "rowwise", "rows:%d" % len(body)]
         elif el == "empty_table":
             # a table without columns: just the `**name` row and the destinations row, either orientation
             nm = rc.rand_text(rng, rc.NAME_ALPHA, 1, 4).rstrip("*") or "e"
@@ -185,7 +208,7 @@ def gen_stream(rng, native):
         elif el == "directive":
             rows.append(["***" + rng.choice(["include", "d", "x y", ""])] + ([""] if rng.random() < 0.3 else []))
             for _ in range(rng.randint(0, 3)):
-                rows.append([rng.choice(["file.csv", "a b", "1.5", 5 if native else "5", "é"])] +
+                rows.append([rng.choice(["file.csv", "a b", "1.5", 5 if native else "5", "é", "  padded.csv ", "\tx", "d" * 120])] +
                             (["extra"] if rng.random() < 0.2 else []))
         elif el == "template":
             rows.append([rng.choice([":x", "::tab", ":::file", ":", ":: a b"])] + (["v"] if rng.random() < 0.4 else []))
@@ -352,6 +375,13 @@ def make_reader(api, src, to, filt, plan=None, issues=None):
         if pos:                                           # (source, sep) are the positional parameters of read_csv
             return read_csv(source, plan.get("sep", SEP), to=to, filter=filt, **kw)
         return read_csv(source, sep=plan.get("sep", SEP), to=to, filter=filt, **kw)
+    if plan.get("pattern"):
+        import re
+        kw["sheet_name_pattern"] = re.compile("S")          # every sheet of the generated workbooks is named S…
+    if plan.get("excel_stream"):
+        with open(src, "rb") as fh:
+            source = io.BytesIO(fh.read())
+        return read_excel(source, to=to, filter=filt, **kw)
     return read_excel(src, to=to, filter=filt, **kw)
 
 
@@ -447,6 +477,10 @@ def gen_plan(rng):
         plan["tracker"] = "collecting"            # an issue tracker that records instead of raising
     if rng.random() < 0.3:
         plan["sep"] = rng.choice([",", "\t", "|", "~"])       # read_csv only
+    if rng.random() < 0.3:
+        plan["excel_stream"] = True               # read_excel from a binary stream instead of a path
+    if rng.random() < 0.3:
+        plan["pattern"] = True                    # read_excel with a sheet_name_pattern (matching every sheet)
     if rng.random() < 0.2:
         plan["path"] = True                       # read_csv from a file path instead of a text stream
     elif rng.random() < 0.2:
@@ -714,6 +748,14 @@ def check_unknown_form(out, case, rows, text, xlsx, to, ops=None, pend=None, rng
         if rng.random() < 0.3:
             kw["issue_tracker"] = bc.collecting_tracker()
             given.append("issue_tracker")
+        r = rng.random()
+        if r < 0.25:
+            kw["origin"] = "some origin"
+            given.append("origin")
+        elif r < 0.45:
+            from pdtable.table_origin import NullLocationFile
+            kw["location_sheet"] = NullLocationFile("somewhere").make_location_sheet()
+            given.append("location_sheet")
     case = dict(case, given=given)
     out.count("unknown form probed with: " + ("+".join(given) or "no other argument"))
     rec = RecordingIter([list(r) for r in rows])
@@ -721,15 +763,24 @@ def check_unknown_form(out, case, rows, text, xlsx, to, ops=None, pend=None, rng
     if positional:
         given.append("positional to")
         case = dict(case, given=given)
-        kwp = {k: v for k, v in kw.items() if k != "filter"}
-        trials = [("parse_blocks", lambda: parse_blocks(rec, None, to, kw.get("filter"), **kwp), lambda: rec.calls)]
+        kwp = {k: v for k, v in kw.items() if k not in ("filter", "location_sheet")}
+        trials = [("parse_blocks", lambda: parse_blocks(rec, kw.get("location_sheet"), to, kw.get("filter"), **kwp), lambda: rec.calls)]
     else:
         trials = [("parse_blocks", lambda: parse_blocks(rec, to=to, **kw), lambda: rec.calls)]
     if text is not None:
         st = RecordingStream(text)
         trials.append(("read_csv", lambda: read_csv(st, sep=sep, to=to, **kw), lambda: st.reads))
     if xlsx is not None:
-        trials.append(("read_excel", lambda: read_excel(xlsx, to=to, **kw), lambda: 0))
+        import re
+        kwx = {k: v for k, v in kw.items() if k != "location_sheet"}        # read_excel has location_file instead
+        if rng is not None and rng.random() < 0.5:
+            kwx["sheet_name_pattern"] = re.compile("S")
+        if rng is not None and rng.random() < 0.5:
+            with open(xlsx, "rb") as fh:
+                xsrc = io.BytesIO(fh.read())
+        else:
+            xsrc = xlsx
+        trials.append(("read_excel", lambda: read_excel(xsrc, to=to, **kwx), lambda: 0))
     for api, make, touched in trials:
         try:
             with warnings.catch_warnings():
@@ -811,6 +862,8 @@ def run(tier, seed, model_ok, translator, search=False):
             tables4 = [(0, st, k, nm, un) for st, k, nm, un in tables]
             if api != "read_csv":
                 plan.pop("sep", None), plan.pop("path", None), plan.pop("origin", None)
+            if api != "read_excel":
+                plan.pop("excel_stream", None), plan.pop("pattern", None)
             if api == "read_csv":
                 sep = plan.get("sep", SEP)
                 rows = csv_safe(rows, sep)
@@ -974,7 +1027,7 @@ def replay(rep):
             # the other routing of the same rows: what the reader was fed, handed to parse_blocks directly (a workbook or
             # a text cannot always be rebuilt cell for cell — openpyxl reads 1.797e308 back as inf and cannot write inf)
             if api != "parse_blocks" and len(sheets_in) == 1 and not out.failures:
-                plan_p = {k: v for k, v in plan_r.items() if k not in ("sep", "path", "origin")}
+                plan_p = {k: v for k, v in plan_r.items() if k not in ("sep", "path", "origin", "excel_stream", "pattern")}
                 results = read_forms("parse_blocks", sheets_in[0], filt_py, plan_p)
                 if results["pdtable"][0] == "ok" and not results["_issues"]["pdtable"]:
                     oracle(out, dict(inp), "parse_blocks", sheets_in, tables, filt_py, results)
